@@ -1,15 +1,19 @@
 ---- MODULE MultiClientGen ----
-(* Schedule generation: behaviours of the design spec (fallback decision as coded) recorded in the history variable
-   `hist`: the configuration (outcome CLASS per node; checks/c19.py picks a concrete error variant per class) and the
-   environment's moves Call / NodeDone(i) / CancelCaller(how).  What the call answers is the implementation's
-   business.  Printed when the call has returned or when it can only wait for hung nodes.  Run with -simulate. *)
+(* Schedule generation: behaviours of the design spec (fallback decision and cancellation as coded) recorded in the
+   history variable `hist`: the configuration (outcome CLASS per node; checks/c19.py picks a concrete error variant per
+   class; the nodes that ignore their request context) and the environment's moves Call / NodeDone(i) /
+   CancelCaller(how).  What the call answers is the implementation's business.  Printed when the call has returned
+   or when it can only wait for hung or stuck nodes (so stuck nodes are released in some schedules and left stuck
+   until the end in others).  Run with -simulate. *)
 EXTENDS MultiClient, Json
-CONSTANTS MaxP, MaxB
+CONSTANTS MaxP, MaxB, MaxDeaf
 VARIABLE hist
 GenInit == \E p \in 1..MaxP, b \in 0..MaxB, st \in Styles :
-             \E o \in [1..(p + b) -> ClassesOf(st)] :
-               /\ InitWith(p, b, st, o)
-               /\ hist = <<[ev |-> "Cfg", P |-> p, B |-> b, style |-> st, out |-> o]>>
+             \E o \in [1..(p + b) -> ClassesOf(st)], df \in SUBSET (1..(p + b)) :
+               /\ Cardinality(df) <= MaxDeaf
+               /\ InitWith(p, b, st, o, df)
+               /\ hist = <<[ev |-> "Cfg", P |-> p, B |-> b, style |-> st, out |-> o,
+                            deaf |-> [i \in 1..(p + b) |-> i \in df]]>>
 GenNext ==
   \/ Call /\ hist' = Append(hist, [ev |-> "Call"])
   \/ \E i \in Nodes : NodeDone(i) /\ hist' = Append(hist, [ev |-> "NodeDone", i |-> i])
@@ -17,6 +21,6 @@ GenNext ==
   \/ CtxReturn /\ UNCHANGED hist
   \/ Deliver /\ UNCHANGED hist
 GenSpec == GenInit /\ [][GenNext]_<<vars, hist>>
-Stuck == phase \in {"prim", "fall"} /\ ~cancelled /\ \A i \in (Active \cap started) \ done : outcome[i] = "hang"
+Stuck == phase \in {"prim", "fall"} /\ ~CtxDue /\ \A i \in Running : outcome[i] = "hang" \/ i \in deaf
 Emit == ~(delivered \/ Stuck) \/ PrintT("@@SCHED@@" \o ToJson(hist))
 ====
